@@ -3,7 +3,7 @@
 use serde_assert::Token;
 use serde_json::Value;
 
-pub const TOKEN_MUTS: [&str; 12] = ["num+1", "num-1", "num0", "numbig", "del", "dup", "swap", "field", "len+1", "len-1", "delelem", "dupelem"];
+pub const TOKEN_MUTS: [&str; 14] = ["num+1", "num-1", "num0", "numbig", "del", "dup", "swap", "field", "len+1", "len-1", "delelem", "dupelem", "alias", "alias-shrink"];
 pub const JSON_MUTS: [&str; 8] = ["num+1", "num-1", "num0", "numbig", "delelem", "dupelem", "swapelem", "key"];
 
 fn is_num(t: &Token) -> bool {
@@ -137,6 +137,57 @@ pub fn mutate_tokens(ts: &[Token], kind: &str, pos: usize) -> (Vec<Token>, Strin
                 }
             }
             (out, format!("{kind}@{i}..{e}"))
+        }
+        "alias" | "alias-shrink" => {
+            // two coordinated changes that keep the allocator section consistent: row b takes the
+            // identifier of row a; b's old slot is accounted for by the free list ("alias") or, when
+            // it was the last slot, by lowering the declared length ("alias-shrink")
+            let alloc = match (0..ts.len()).find(|i| matches!(&ts[*i], Token::Struct { name: "Allocator", .. })) {
+                Some(i) => i,
+                None => return (out, "no-allocator".into()),
+            };
+            // identifier structs stored in rows: Struct{Identifier} Field(index) U64 Field(generation) U64 StructEnd
+            let ids: Vec<usize> = (0..alloc).filter(|i| matches!(&ts[*i], Token::Struct { name: "Identifier", .. })).collect();
+            if ids.len() < 2 {
+                return (out, "too-few-rows".into());
+            }
+            let a = ids[pos % ids.len()];
+            let b = ids[(pos / 7 + 1 + pos % ids.len()) % ids.len()];
+            if a == b {
+                return (out, "same-row".into());
+            }
+            let get = |i: usize| -> (u64, u64) {
+                let x = if let Token::U64(x) = &ts[i + 2] { *x } else { 0 };
+                let g = if let Token::U64(g) = &ts[i + 4] { *g } else { 0 };
+                (x, g)
+            };
+            let (ai, ag) = get(a);
+            let (bi, bg) = get(b);
+            out[b + 2] = Token::U64(ai);
+            out[b + 4] = Token::U64(ag);
+            // allocator: Field(length) U64(n) Field(free) Seq{len} ... SeqEnd
+            let len_pos = (alloc..ts.len()).find(|i| matches!(&ts[*i], Token::Field("length"))).map(|i| i + 1);
+            let seq_pos = (alloc..ts.len()).find(|i| matches!(&ts[*i], Token::Field("free"))).map(|i| i + 1);
+            if let (Some(lp), Some(sp)) = (len_pos, seq_pos) {
+                let n = if let Token::U64(n) = &ts[lp] { *n } else { 0 };
+                if kind == "alias-shrink" && bi + 1 == n {
+                    out[lp] = Token::U64(n - 1);
+                } else if let Token::Seq { len: Some(k) } = &ts[sp] {
+                    out[sp] = Token::Seq { len: Some(k + 1) };
+                    let ins = vec![
+                        Token::Struct { name: "Identifier", len: 2 },
+                        Token::Field("index"),
+                        Token::U64(bi),
+                        Token::Field("generation"),
+                        Token::U64(bg),
+                        Token::StructEnd,
+                    ];
+                    for (k2, t) in ins.into_iter().enumerate() {
+                        out.insert(sp + 1 + k2, t);
+                    }
+                }
+            }
+            (out, format!("{kind}: row@{b} ({bi}.{bg}) := row@{a} ({ai}.{ag})"))
         }
         _ => (out, "none".into()),
     }
